@@ -25,8 +25,9 @@ MIN_NONTRIVIAL = {'quick': 200, 'thorough': 6000}
 TIME_CAP = {'quick': 300, 'thorough': 3600}
 REQUIRED_CLASSES = ['element', 'element-proportion>1', 'substance', 'material-number-fraction', 'material-mass-fraction',
                     'mass-density-given', 'number-density-given', 'with-volume', 'without-volume', 'natural', 'most-abundant',
-                    'unit:kg/m3', 'unit:kg/l', 'unit:m-3', 'unit:1/l', 'unit:l', 'unit:m3', 'dict-form', 'string-form']
-REQUIRED_MONITORS = ['identity_checks', 'component_rows_checked', 'unit_twins_compared', 'table_hygiene_checks']
+                    'unit:kg/m3', 'unit:kg/l', 'unit:m-3', 'unit:1/l', 'unit:l', 'unit:m3', 'dict-form', 'string-form',
+                    'reread-after-in-place-conversion']
+REQUIRED_MONITORS = ['identity_checks', 'component_rows_checked', 'unit_twins_compared', 'inplace_conversion_rereads', 'table_hygiene_checks']
 ASSUMPTIONS = ['component masses m_i are those reported by data_components() / Element.component_mass (their correctness is C10)',
                'the gram value of 1 Da is the unit table magnitude; unit factors of the twins are exact SI relations of the model '
                '(1 kg/m3 = 1e-3 g/cm3, 1 l = 1e3 cm3, ...), checked once per worker against Quantity.value()',
@@ -385,8 +386,36 @@ def run_case(case, ctx):
         e = expected_matter([am[k] for k in am], [o['masses'][k] for k in am], case['dens'][0], case['dens'][1], case['vol'], T.da_g)
         sample['expected'] = dict(rho_g_cm3=e['rho'], n_cm3=e['n'], mass_g=e['mass'], n_i=dict(zip(am, e['n_i'])),
                                   rho_i=dict(zip(am, e['rho_i'])))
-    # ---- unit twins
     fo = flat(o)
+    # ---- the stored quantities converted in place (Quantity.to returns self; the idiom obj.number_density.to('m-3') to
+    #      print a density in other units is ordinary use), then everything read again: nothing may change
+    du0, vu0 = case['units'][0] if case['units'] else (base_units[0], 'cm3')
+    n_unit = du0 if case['dens'][0] == 'number' else ['m-3', '1/l', 'mm-3', 'dm-3'][len(fp) % 4]
+    rho_unit = du0 if case['dens'][0] == 'mass' else ['kg/m3', 'g/l', 'mg/cm3', 'kg/l'][len(fp) % 4]
+    stages = [[('number_density', n_unit)], [('mass_density', rho_unit), ('volume', vu0), ('mass', 'kg')]]
+    for stage in stages:
+        done = []
+        try:
+            for attr, u in stage:
+                q = getattr(obj, attr, None)
+                if q is not None and hasattr(q, 'to'):
+                    q.to(u)
+                    done.append('%s.to(%s)' % (attr, u))
+            o3 = observe(obj, case)
+        except Exception as e:
+            devs.append(dev('reread-after-in-place-conversion-raises:' + type(e).__name__, dict(converted=done, exc=repr(e)[:300])))
+            break
+        mon['inplace_conversion_rereads'] = mon.get('inplace_conversion_rereads', 0) + 1
+        classes.add('reread-after-in-place-conversion')
+        f3 = flat(o3)
+        diff = [k for k in fo if k not in f3 or (fo[k] is None) != (f3[k] is None) or (fo[k] is not None and not close(fo[k], f3[k], RTOL))]
+        diff += [k for k in f3 if k not in fo]
+        if diff:
+            d0 = diff[0]
+            devs.append(dev('outputs-change-after-in-place-conversion-of(%s)' % '+'.join(a for a, _ in stage if getattr(obj, a, None) is not None),
+                            dict(converted=done, differing=diff[:6], before=fo.get(d0), after=f3.get(d0))))
+            break
+    # ---- unit twins
     for du, vu in case['units']:
         classes.add('unit:' + du)
         if case['vol'] is not None:
